@@ -765,8 +765,11 @@ THEOREMS = [
 REFINED = ["Context::exp_internal entry guards (assert_finite, assert_limited_precision, zero shortcut)",
            "Context::ln_internal entry guards (assert_finite, assert_limited_precision, ln 1 / ln_1p 0 shortcut, domain test x <= 0 / x <= -1)",
            "Context::powi entry (assert_finite, negative exponent + unlimited precision, x^0, x^1 = repr_round)",
-           "Context::powf entry (assert_finite(base), assert_limited_precision, y = 0, y = 1, base = 0, negative base)"]
-FRONTIER = ["the numerical bodies of exp_internal / ln_internal / iacoth / ln2 / ln10 / powi (binary exponentiation) / powf "
+           "Context::powf entry (assert_finite_operands, assert_limited_precision, y = 0, y = 1, base = 0, negative base)",
+           "Context::powi, non-negative exponent >= 2: the binary powering loop (sqr / mul at the working precision "
+           "p + exp.bit_len + p.bit_len, final with_precision) is mirrored on builder-float's C03 model, tied to the code "
+           "digit for digit on every powi case, and carries a proved error bound (Props/C11Powi.lean)"]
+FRONTIER = ["the numerical bodies of exp_internal / ln_internal / iacoth / ln2 / ln10 / powi with a negative exponent / powf "
             "are NOT mirrored: each result is certified a posteriori against a proved enclosure of the real value",
             "that the certificate succeeds on every input (i.e. that the heuristic guard digits always suffice) is NOT proved"]
 RULE = ("raw cases = entry-guard table (precision 0, +-inf, negative base, exact shortcuts; every base) + "
@@ -787,7 +790,10 @@ EXPLANATION = ("Proved in Lean for all inputs: (1) the entry-guard clauses (exp 
                "test accepts a result r it holds that (|r - f(x)| < 1 ulp or r = f(x)) and (Exact -> r = f(x)), and whenever it "
                "reports a violation the negation holds (also for the scaled comparison used for astronomically large or small "
                "results, for exact rational powers, and for multi-word integer exponents); three results printed by the "
-               "pinned commit are refuted as theorems (`*_counterexample`). NOT proved: that dashu's results always pass the certificate (its guard-digit "
+               "pinned commit are refuted as theorems (`*_counterexample`). (4) powi with a non-negative exponent (Props/C11Powi): "
+               "the working value of the mirrored powering loop is within relative distance B^(2-p-bit_len p) of base^n, the "
+               "result is its correct rounding (C03 contract), hence < 1 ulp in the two nearest modes when 3*B^(2-bit_len p) <= 1; "
+               "in the directed modes < 1 ulp is false for any guard (counterexample theorem, reproduced by the model). NOT proved: that dashu's results always pass the certificate (its guard-digit "
                "counts are heuristic); this residual is explored: every generated input is run on the real code and its "
                "result certified; a failed certificate is a violation with that input, an exhausted effort budget is "
                "counted as undecided.")
